@@ -69,3 +69,163 @@ package header
 //@   modifies hopByHopHeaders, whitespace, noop
 //@   noframe
 //@   ensures[fixed-hop-by-hop-list-is-the-rfc-list-plus-proxy-connection] hopList()
+
+// Connection-listed removal. tok(v, j) is the header name the j-th comma-separated part of a Connection value names.
+// strings.Split(v, ",") is described by two uninterpreted functions: the number of comma-separated parts of v and
+// the j-th part.
+//@ specfunc nparts(v string) int
+//@ specfunc part(v string, j int) string
+//@ extern func strings.Split
+//@   ensures sep == "," ==> len(result) == nparts(s) && len(result) >= 1 && forall j int :: 0 <= j && j < len(result) ==> result[j] == part(s, j)
+//@ pred tok(v string, j int) = http.CanonicalHeaderKey(strings.TrimSpace(part(v, j)))
+//@ ghost var hbhI gmap[string]int
+//@ ghost var hbhJ gmap[string]int
+// cval(h, a): the a-th value of the Connection header at entry; listed(h, k): k is named by some part of some value
+// (witnessed by the ghost maps hbhI / hbhJ, which record where the removal of k came from).
+//@ pred clen(h http.Header) = old(ite(has(h, "Connection"), len(h["Connection"]), 0))
+//@ pred cval(h http.Header, a int) = old(h["Connection"][a])
+//@ pred listed(h http.Header, k string) = 0 <= hbhI[k] && hbhI[k] < clen(h) && 0 <= hbhJ[k] && hbhJ[k] < nparts(cval(h, hbhI[k])) && k == tok(cval(h, hbhI[k]), hbhJ[k])
+//@ func removeHopByHopHeaders
+//@   serves C14
+//@   safe index
+//@   requires hopList() && header != nil
+//@   modifies header[*], hbhI, hbhJ
+//@   ensures[fixed-hop-by-hop-headers-removed] forall k string :: isHop(k) ==> !has(header, k)
+//@   ensures[connection-listed-headers-removed] forall a int, b int :: 0 <= a && a < clen(header) && 0 <= b && b < nparts(cval(header, a)) ==> !has(header, tok(cval(header, a), b))
+//@   ensures[every-other-header-untouched] forall k string :: has(header, k) ==> old(has(header, k)) && header[k] == old(header[k])
+//@   ensures[only-hop-by-hop-headers-removed] forall k string :: old(has(header, k)) && !has(header, k) ==> isHop(k) || listed(header, k)
+//@   loop 0 invariant forall k string :: has(header, k) ==> old(has(header, k)) && header[k] == old(header[k])
+//@   loop 0 invariant forall a int, b int :: 0 <= a && a <= rangeindex && a < clen(header) && 0 <= b && b < nparts(cval(header, a)) ==> !has(header, tok(cval(header, a), b))
+//@   loop 0 invariant forall k string :: old(has(header, k)) && !has(header, k) ==> listed(header, k)
+//@   loop 1 invariant forall k string :: has(header, k) ==> old(has(header, k)) && header[k] == old(header[k])
+//@   loop 1 invariant 0 <= rangeindex0 + 1 && rangeindex0 + 1 < clen(header) && vs == cval(header, rangeindex0 + 1)
+//@   loop 1 invariant forall a int, b int :: 0 <= a && a <= rangeindex0 && a < clen(header) && 0 <= b && b < nparts(cval(header, a)) ==> !has(header, tok(cval(header, a), b))
+//@   loop 1 invariant forall b int :: 0 <= b && b <= rangeindex && b < nparts(vs) ==> !has(header, tok(vs, b))
+//@   loop 1 invariant forall k string :: old(has(header, k)) && !has(header, k) ==> listed(header, k)
+//@   loop 2 invariant forall k string :: has(header, k) ==> old(has(header, k)) && header[k] == old(header[k])
+//@   loop 2 invariant forall a int, b int :: 0 <= a && a < clen(header) && 0 <= b && b < nparts(cval(header, a)) ==> !has(header, tok(cval(header, a), b))
+//@   loop 2 invariant forall i int :: 0 <= i && i <= rangeindex && i < 9 ==> !has(header, hopByHopHeaders[i])
+//@   loop 2 invariant forall k string :: old(has(header, k)) && !has(header, k) ==> isHop(k) || listed(header, k)
+//@   at call 0 of Del before set hbhI = upd(hbhI, k, rangeindex0 + 1)
+//@   at call 0 of Del before set hbhJ = upd(hbhJ, k, rangeindex1 + 1)
+
+// ---------------------------------------------------------------------------------------------
+// Via. String building and splitting are described by uninterpreted functions: viaEntry is this proxy's entry
+// "<major>.<minor> <name>-<boundary>", commaJoin(a, b) is a + ", " + b, dashJoin(a, b) is a + "-" + b, field(s, i) the
+// i-th whitespace separated field of s.
+//@ specfunc viaEntry(maj int, min int, name string, boundary string) string
+//@ specfunc commaJoin(a string, b string) string
+//@ specfunc dashJoin(a string, b string) string
+//@ specfunc nfields(s string) int
+//@ specfunc field(s string, i int) string
+//@ extern func fmt.Sprintf
+//@   ensures format == "%d.%d %s-%s" && len(a) == 4 ==> result == viaEntry(as(a[0], int), as(a[1], int), as(a[2], string), as(a[3], string))
+//@   ensures format == "%s, %s" && len(a) == 2 ==> result == commaJoin(as(a[0], string), as(a[1], string))
+//@   ensures format == "%s-%s" && len(a) == 2 ==> result == dashJoin(as(a[0], string), as(a[1], string))
+//@ extern func (*regexp.Regexp).Split
+//@   ensures len(result) == nfields(s) && len(result) >= 0 && forall i int :: 0 <= i && i < len(result) ==> result[i] == field(s, i)
+//@ pred namesMe(m *ViaModifier, e string) = nfields(strings.TrimSpace(e)) >= 2 && field(strings.TrimSpace(e), 1) == dashJoin(m.requestedBy, m.boundary)
+//@ func (*ViaModifier).hasLoop
+//@   serves C14
+//@   safe index
+//@   requires m != nil
+//@   ensures[loop-iff-some-entry-names-this-instance] result == (exists j int :: 0 <= j && j < nparts(via) && namesMe(m, part(via, j)))
+//@   loop 0 invariant forall j int :: 0 <= j && j <= rangeindex && j < nparts(via) ==> !namesMe(m, part(via, j))
+
+//@ pred viaOf(h http.Header) = ite(has(h, "Via") && len(h["Via"]) > 0, h["Via"][0], "")
+//@ pred myEntry(m *ViaModifier, req *http.Request) = viaEntry(req.ProtoMajor, req.ProtoMinor, m.requestedBy, m.boundary)
+//@ pred loops(m *ViaModifier, v string) = exists j int :: 0 <= j && j < nparts(v) && namesMe(m, part(v, j))
+//@ func (*ViaModifier).ModifyRequest
+//@   serves C14
+//@   requires m != nil && req != nil && req.Header != nil && linked(req) && ctxOf(req).vals != nil
+//@   modifies req.Header[*], martian.Context.skipRoundTrip, martian.Context.vals[*], martian.ctxmu.rheld, sync.RWMutex.wheld, sync.RWMutex.rheld
+//@   noframe
+//@   ensures[looping-request-is-refused-and-never-sent-upstream] old(viaOf(req.Header)) != "" && loops(m, old(viaOf(req.Header))) ==> result != nil && ctxOf(req).skipRoundTrip &&
+//@        has(ctxOf(req).vals, viaLoopKey) && ctxOf(req).vals[viaLoopKey] != nil &&
+//@        (forall k string :: has(req.Header, k) == old(has(req.Header, k)) && req.Header[k] == old(req.Header[k]))
+//@   ensures[exactly-one-via-entry-appended-after-the-existing-ones] !(old(viaOf(req.Header)) != "" && loops(m, old(viaOf(req.Header)))) ==> result == nil &&
+//@        has(req.Header, "Via") && len(req.Header["Via"]) == 1 &&
+//@        req.Header["Via"][0] == ite(old(viaOf(req.Header)) == "", myEntry(m, req), commaJoin(old(viaOf(req.Header)), myEntry(m, req))) &&
+//@        (forall k string :: k != "Via" ==> has(req.Header, k) == old(has(req.Header, k)) && req.Header[k] == old(req.Header[k]))
+
+//@ pred loopFlagged(req *http.Request) = ctxOf(req).vals != nil && has(ctxOf(req).vals, viaLoopKey) && ctxOf(req).vals[viaLoopKey] != nil
+//@ func (*ViaModifier).ModifyResponse
+//@   serves C14
+//@   requires m != nil && res != nil && res.Request != nil && linked(res.Request)
+//@   modifies res.StatusCode, res.Status, martian.ctxmu.rheld, sync.RWMutex.rheld
+//@   noframe
+//@   ensures[looped-request-is-answered-400] loopFlagged(res.Request) ==> res.StatusCode == 400 && result != nil
+//@   ensures[other-responses-untouched] !loopFlagged(res.Request) ==> res.StatusCode == old(res.StatusCode) && res.Status == old(res.Status) && result == nil
+
+// The two thin wrappers of the hop-by-hop modifier.
+//@ func (*hopByHopModifier).ModifyRequest
+//@   serves C14
+//@   requires hopList() && req != nil && req.Header != nil
+//@   modifies req.Header[*], hbhI, hbhJ
+//@   ensures[request-hop-by-hop-headers-removed] result == nil && (forall k string :: isHop(k) ==> !has(req.Header, k)) &&
+//@        (forall k string :: has(req.Header, k) ==> old(has(req.Header, k)) && req.Header[k] == old(req.Header[k]))
+//@ func (*hopByHopModifier).ModifyResponse
+//@   serves C14
+//@   requires hopList() && res != nil && res.Header != nil
+//@   modifies res.Header[*], hbhI, hbhJ
+//@   ensures[response-hop-by-hop-headers-removed] result == nil && (forall k string :: isHop(k) ==> !has(res.Header, k)) &&
+//@        (forall k string :: has(res.Header, k) ==> old(has(res.Header, k)) && res.Header[k] == old(res.Header[k]))
+
+// ---------------------------------------------------------------------------------------------
+// X-Forwarded-*: Proto / Host / Url are set from the request only when absent; For gets the client address appended.
+//@ pred firstOf(h http.Header, k string) = ite(has(h, k) && len(h[k]) > 0, h[k][0], "")
+//@ pred single(h http.Header, k string, v string) = has(h, k) && len(h[k]) == 1 && h[k][0] == v
+//@ ghost var fwdHost string
+//@ ghost var fwdErr error
+//@ ghost var fwdURL string
+//@ extern func net.SplitHostPort
+//@   modifies fwdHost, fwdErr
+//@   ensures fwdHost == result0 && fwdErr == result2
+//@ extern func (*net/url.URL).String
+//@   modifies fwdURL
+//@   ensures fwdURL == result
+//@ func NewForwardedModifier$1
+//@   serves C14
+//@   requires req != nil && req.Header != nil && req.URL != nil
+//@   modifies req.Header[*], fwdHost, fwdErr, fwdURL
+//@   ensures result == nil
+//@   ensures[existing-proto-host-url-preserved] (old(firstOf(req.Header, "X-Forwarded-Proto")) != "" ==> has(req.Header, "X-Forwarded-Proto") && req.Header["X-Forwarded-Proto"] == old(req.Header["X-Forwarded-Proto"])) &&
+//@        (old(firstOf(req.Header, "X-Forwarded-Host")) != "" ==> has(req.Header, "X-Forwarded-Host") && req.Header["X-Forwarded-Host"] == old(req.Header["X-Forwarded-Host"])) &&
+//@        (old(firstOf(req.Header, "X-Forwarded-Url")) != "" ==> has(req.Header, "X-Forwarded-Url") && req.Header["X-Forwarded-Url"] == old(req.Header["X-Forwarded-Url"]))
+//@   ensures[absent-proto-reflects-the-request] old(firstOf(req.Header, "X-Forwarded-Proto")) == "" ==> single(req.Header, "X-Forwarded-Proto", req.URL.Scheme)
+//@   ensures[absent-host-reflects-the-request] old(firstOf(req.Header, "X-Forwarded-Host")) == "" ==> single(req.Header, "X-Forwarded-Host", req.Host)
+//@   ensures[absent-url-reflects-the-request] old(firstOf(req.Header, "X-Forwarded-Url")) == "" ==> single(req.Header, "X-Forwarded-Url", fwdURL)
+//@   ensures[client-address-appended-to-forwarded-for] single(req.Header, "X-Forwarded-For",
+//@        ite(old(firstOf(req.Header, "X-Forwarded-For")) == "", ite(fwdErr == nil, fwdHost, req.RemoteAddr), old(firstOf(req.Header, "X-Forwarded-For")) + ", " + ite(fwdErr == nil, fwdHost, req.RemoteAddr)))
+//@   ensures[every-other-header-untouched] forall k string :: k != "X-Forwarded-Proto" && k != "X-Forwarded-Host" && k != "X-Forwarded-Url" && k != "X-Forwarded-For" ==>
+//@        has(req.Header, k) == old(has(req.Header, k)) && req.Header[k] == old(req.Header[k])
+
+// ---------------------------------------------------------------------------------------------
+// Request framing. tr(v, j) is the trimmed j-th comma separated part of a header value.
+//@ pred tr(v string, j int) = strings.TrimSpace(part(v, j))
+//@ pred cl(h http.Header, a int) = old(h["Content-Length"][a])
+//@ pred ncl(h http.Header) = old(ite(has(h, "Content-Length"), len(h["Content-Length"]), 0))
+//@ pred nte(h http.Header) = old(ite(has(h, "Transfer-Encoding"), len(h["Transfer-Encoding"]), 0))
+//@ pred lastTE(h http.Header) = old(h["Transfer-Encoding"][len(h["Transfer-Encoding"]) - 1])
+//@ ghost var clCanon string
+//@ func NewBadFramingModifier$1
+//@   serves C14
+//@   safe index
+//@   requires req != nil && req.Header != nil
+//@   modifies req.Header[*], clCanon
+//@   ensures[conflicting-content-lengths-are-an-error] result == nil && ncl(req.Header) > 0 ==>
+//@        forall a int, b int :: 0 <= a && a < ncl(req.Header) && 0 <= b && b < nparts(cl(req.Header, a)) ==> tr(cl(req.Header, a), b) == "" || tr(cl(req.Header, a), b) == clCanon
+//@   ensures[equal-content-lengths-collapse-to-one] result == nil && ncl(req.Header) > 0 && nte(req.Header) == 0 ==> single(req.Header, "Content-Length", clCanon)
+//@   ensures[transfer-encoding-not-ending-in-chunked-is-an-error] nte(req.Header) > 0 && tr(lastTE(req.Header), nparts(lastTE(req.Header)) - 1) != "chunked" ==> result != nil
+//@   ensures[chunked-takes-precedence-over-content-length] nte(req.Header) > 0 && result == nil ==> !has(req.Header, "Content-Length")
+//@   ensures[every-other-header-untouched] forall k string :: k != "Content-Length" ==> has(req.Header, k) == old(has(req.Header, k)) && req.Header[k] == old(req.Header[k])
+//@   loop 0 invariant forall k string :: has(req.Header, k) == old(has(req.Header, k)) && req.Header[k] == old(req.Header[k])
+//@   loop 0 invariant forall a int, b int :: 0 <= a && a <= rangeindex && a < ncl(req.Header) && 0 <= b && b < nparts(cl(req.Header, a)) ==> tr(cl(req.Header, a), b) == "" || tr(cl(req.Header, a), b) == length
+//@   loop 1 invariant forall k string :: has(req.Header, k) == old(has(req.Header, k)) && req.Header[k] == old(req.Header[k])
+//@   loop 1 invariant 0 <= rangeindex0 + 1 && rangeindex0 + 1 < ncl(req.Header) && ls == cl(req.Header, rangeindex0 + 1)
+//@   loop 1 invariant forall a int, b int :: 0 <= a && a <= rangeindex0 && a < ncl(req.Header) && 0 <= b && b < nparts(cl(req.Header, a)) ==> tr(cl(req.Header, a), b) == "" || tr(cl(req.Header, a), b) == length
+//@   loop 1 invariant forall b int :: 0 <= b && b <= rangeindex && b < nparts(ls) ==> tr(ls, b) == "" || tr(ls, b) == length
+//@   loop 1 invariant length == "" ==> forall a int, b int :: 0 <= a && a <= rangeindex0 && a < ncl(req.Header) && 0 <= b && b < nparts(cl(req.Header, a)) ==> tr(cl(req.Header, a), b) == ""
+//@   loop 0 invariant length == "" ==> forall a int, b int :: 0 <= a && a <= rangeindex && a < ncl(req.Header) && 0 <= b && b < nparts(cl(req.Header, a)) ==> tr(cl(req.Header, a), b) == ""
+//@   loop 1 invariant length == "" ==> forall b int :: 0 <= b && b <= rangeindex && b < nparts(ls) ==> tr(ls, b) == ""
+//@   at call 0 of Set before set clCanon = arg1
